@@ -79,6 +79,8 @@ type AToken struct {
 	// executor turns them into absolute Exp / Nbf
 	ExpRel *int `json:"expRel,omitempty"`
 	NbfRel *int `json:"nbfRel,omitempty"`
+	// Malform: "field:variant" edits applied to the encoded token after signing (C11)
+	Malform []string `json:"malform,omitempty"`
 }
 
 type ADesc struct {
@@ -485,9 +487,16 @@ func (cw *CWorld) issue(t *AToken) (delegation.Delegation, error) {
 		raw := signature.Decode(model.S).Raw()
 		model.S = signature.NewSignature(0xd0ff, raw).Bytes()
 	}
-	rt, err := block.Encode(&model, udm.Type(), cbor.Codec, sha256.Hasher)
+	var rt ipld.Block
+	rt, err = block.Encode(&model, udm.Type(), cbor.Codec, sha256.Hasher)
 	if err != nil {
 		return nil, err
+	}
+	if len(t.Malform) > 0 {
+		rt, err = malformToken(&model, t.Malform)
+		if err != nil {
+			return nil, err
+		}
 	}
 	if err := bs.Put(rt); err != nil {
 		return nil, err
